@@ -292,14 +292,19 @@ func (fg *FuncGen) applyCall(cl *callee, args []Val, pos token.Pos, guard string
 	if cl.ct != nil {
 		env := bind(st, st, nil)
 		for _, r := range cl.ct.Requires {
+			fg.clausePkg(env, r)
 			t := fg.trBool(r.Expr, env)
 			props := r.Props
 			fg.oblige("pre@call", txt+": "+r.Text, t, props, r.Text)
 		}
 	}
+	if cl.inModule && cl.kind != "extern" {
+		fg.argInvariants(cl, args, pre, txt)
+	}
 	// frame
 	fg.havocForCall(cl, args, st, pre)
 	fg.ownObjectsAcrossCall(pre, st, txt)
+	fg.boundary = st.clone()
 	// results
 	var results []Val
 	var rv Val
@@ -321,10 +326,35 @@ func (fg *FuncGen) applyCall(cl *callee, args []Val, pos token.Pos, guard string
 			}
 		}
 		for _, en := range cl.ct.Ensures {
+			fg.clausePkg(env, en)
 			fg.assumeHere(fg.trBool(en.Expr, env))
+		}
+		for _, en := range cl.ct.Assumes {
+			fg.clausePkg(env, en)
+			fg.assumeHere(fg.trBool(en.Expr, env))
+			fg.note("ASSUMED postcondition of %s (not checked against its body): %s", cl.name, en.Text)
 		}
 		if cl.kind == "extern" || cl.ct.Trusted {
 			fg.note("assumed contract: %s %s", cl.ct.Kind, cl.ct.Key)
+		}
+		// a function that implements a function-type / interface-method contract also
+		// guarantees that contract to its direct callers (it is proved against it)
+		if cl.ct.Implements != "" && cl.fn != nil {
+			if ict, names := fg.g.implementedBy(cl.fn, cl.ct); ict != nil {
+				ienv := bind(st, pre, results)
+				own := cl.params
+				for i, n := range names {
+					if i < len(own) {
+						if v, ok := env.vars[own[i]]; ok {
+							ienv.vars[n] = v
+						}
+					}
+				}
+				for _, en := range ict.Ensures {
+					fg.clausePkg(ienv, en)
+					fg.assumeHere(fg.trBool(en.Expr, ienv))
+				}
+			}
 		}
 	} else {
 		switch {
@@ -413,11 +443,24 @@ type frameItem struct {
 	ref  string // "" = whole component
 }
 
+// expandFrame replaces named frames by their items; an item of a named frame is written
+// "<pkgpath>::<item>" so that it is resolved in the package that defines the frame.
 func (g *Gen) expandFrame(items []string) []string {
 	var out []string
 	for _, it := range items {
-		if sub, ok := g.cs.Frames[it]; ok {
-			out = append(out, g.expandFrame(sub)...)
+		name := it
+		if i := strings.LastIndex(it, "."); i > 0 {
+			if _, ok := g.cs.Frames[it[i+1:]]; ok && !strings.ContainsAny(it, "()[] ") {
+				name = it[i+1:] // pkg.frameName
+			}
+		}
+		if sub, ok := g.cs.Frames[name]; ok {
+			for _, s := range g.expandFrame(sub) {
+				if !strings.Contains(s, "::") {
+					s = g.cs.FramePkg[name] + "::" + s
+				}
+				out = append(out, s)
+			}
 		} else {
 			out = append(out, it)
 		}
@@ -427,7 +470,15 @@ func (g *Gen) expandFrame(items []string) []string {
 
 func (fg *FuncGen) frameItems(items []string, env *SpecEnv) (out []frameItem, all bool) {
 	items = fg.g.expandFrame(items)
+	basePkg := env.pkg
 	for _, it := range items {
+		env.pkg = basePkg
+		if i := strings.Index(it, "::"); i > 0 {
+			if p := fg.g.pkgByPath(it[:i]); p != nil {
+				env.pkg = p
+			}
+			it = it[i+2:]
+		}
 		switch it {
 		case "nothing":
 			continue
@@ -620,6 +671,8 @@ func (fg *FuncGen) havocItems(items []frameItem, st *State) {
 }
 
 func (fg *FuncGen) havocForCall(cl *callee, args []Val, st, pre *State) {
+	fg.inCallHavoc = true
+	defer func() { fg.inCallHavoc = false }()
 	if cl.ct != nil && cl.ct.Pure {
 		return
 	}
@@ -1190,7 +1243,8 @@ func (fg *FuncGen) frameFormula(st *State, cn string) string {
 	}
 	fg.enc.usesQuant = true
 	a0 := fg.allocTerm(fg.entry)
-	return fmt.Sprintf("(forall ((r Int)) (! (=> (and (< r %s) %s) (= (select %s r) (select %s r))) :pattern ((select %s r))))", a0, and(excl...), cur, old, cur)
+	fg.needRootOf()
+	return fmt.Sprintf("(forall ((r Int)) (! (=> (and (< (rootOf r) %s) %s) (= (select %s r) (select %s r))) :pattern ((select %s r))))", a0, and(excl...), cur, old, cur)
 }
 
 // frameObligations: everything outside the declared frame is unchanged for objects
@@ -1253,7 +1307,14 @@ func (fg *FuncGen) assumeObjInv(v Val, st *State, post bool) {
 	if ct == nil {
 		return
 	}
-	dirty := fg.dirty[typeKey(n)]
+	if _, ok := fg.known[v.T]; !ok && !strings.HasPrefix(v.T, "dummy_self_") {
+		what := "obtained here"
+		if len(fg.known) < len(fg.fn.Params) {
+			what = "parameter"
+		}
+		fg.known[v.T] = touched{T: v.T, Typ: v.Typ, what: what, cond: fg.reach}
+	}
+	dirty := fg.dirty[typeKey(n)] || fg.depsChanged(fg.invDeps(ct, v.Typ), fg.lastBoundary(), fg.cur)
 	key := fmt.Sprintf("%s|%v|%v|%d", v.T, post, dirty, fg.callEpoch)
 	if fg.invAssumed[key] {
 		return
@@ -1307,21 +1368,97 @@ func (fg *FuncGen) assumeObjInvIn(v Val, st *State) {
 
 func (fg *FuncGen) assumeStructInvsAtEntry() {
 	for _, p := range fg.fn.Params {
+		if fg.ct != nil && hasProp(fg.ct.NoInv, p.Name()) {
+			continue
+		}
 		fg.assumeObjInv(fg.vals[p], fg.entry, false)
 	}
 }
 
-// objInvObligations: at return, every object of an invariant-carrying type that this
-// function allocated or wrote satisfies its invariant.
+// invDeps: the heap components the invariant of a struct type reads (beyond the object's
+// own scalar fields): map contents, slice elements, fields of referenced objects.
+func (fg *FuncGen) invDeps(ct *Contract, ptrT types.Type) []string {
+	key := ct.Pkg + "." + ct.Key
+	if d, ok := fg.depsCache[key]; ok {
+		return d
+	}
+	fg.depsCache[key] = nil
+	fg.recording = map[string]bool{}
+	dummy := fg.enc.declConst("dummy_self_"+sanitize(ct.Key), "Int")
+	fg.inInv = true
+	fg.muted = true // facts about the dummy object are not kept
+	fg.invTerm(ct, ptrT, dummy, fg.entry)
+	fg.muted = false
+	fg.inInv = false
+	var deps []string
+	for _, k := range sortedKeys(fg.recording) {
+		deps = append(deps, k)
+	}
+	fg.recording = nil
+	fg.depsCache[key] = deps
+	return deps
+}
+
+func (fg *FuncGen) depsChanged(deps []string, a, b *State) bool {
+	if a.epoch != b.epoch {
+		return true
+	}
+	for _, d := range deps {
+		c := fg.comps[d]
+		if c != nil && fg.get(a, c) != fg.get(b, c) {
+			return true
+		}
+	}
+	return false
+}
+
+// objInvObligations: at return, the invariant holds for every object of an
+// invariant-carrying type that this function allocated or wrote, and - when the function
+// changed anything the invariant depends on - for every such object it knows about.
 func (fg *FuncGen) objInvObligations(st *State) {
+	done := map[string]bool{}
 	for _, k := range sortedKeys(fg.invTouched) {
 		tv := fg.invTouched[k]
 		ct, _ := fg.structInvFor(tv.Typ)
 		if ct == nil {
 			continue
 		}
+		done[tv.T] = true
 		goal := implies(and(tv.cond, fmt.Sprintf("(not (= %s 0))", tv.T)), fg.invTerm(ct, tv.Typ, tv.T, st))
 		fg.oblige("objinv", ct.Key+" "+tv.what, goal, ct.Props, "invariant")
+	}
+	for _, k := range sortedKeys(fg.known) {
+		ko := fg.known[k]
+		if done[ko.T] {
+			continue
+		}
+		ct, _ := fg.structInvFor(ko.Typ)
+		if ct == nil {
+			continue
+		}
+		own := false
+		wild := false
+		var hits []string
+		for _, d := range fg.invDeps(ct, ko.Typ) {
+			for _, r := range fg.ownMods[d] {
+				own = true
+				if r == "*" || !fg.isOwnField(ct, ko.Typ, d) {
+					wild = true
+				} else {
+					parts := strings.SplitN(r, "\x00", 2)
+					hits = append(hits, and(parts[0], fmt.Sprintf("(= %s %s)", ko.T, parts[1])))
+				}
+			}
+		}
+		if !own {
+			continue // only callees wrote what the invariant depends on; they re-establish it themselves
+		}
+		touchedByUs := "true"
+		if !wild {
+			touchedByUs = or(hits...) // our own stores only hit these objects
+		}
+		goal := implies(and(ko.cond, fmt.Sprintf("(not (= %s 0))", ko.T), touchedByUs), fg.invTerm(ct, ko.Typ, ko.T, st))
+		fg.oblige("objinv", ct.Key+" "+ko.what, goal, ct.Props, "invariant")
 	}
 }
 
@@ -1470,4 +1607,109 @@ func (fg *FuncGen) ownObjectsAcrossCall(pre, st *State, callTxt string) {
 		fg.oblige("objinv@call", ct.Key+" "+tv.what+", before "+callTxt, implies(guard, fg.invTerm(ct, tv.Typ, tv.T, pre)), ct.Props, "invariant")
 		fg.assumeHere(implies(guard, fg.invTerm(ct, tv.Typ, tv.T, st)))
 	}
+}
+
+// lastBoundary: the state at the last call boundary (or entry), where every object
+// invariant is known to hold.
+func (fg *FuncGen) lastBoundary() *State {
+	if fg.boundary != nil {
+		return fg.boundary
+	}
+	return fg.entry
+}
+
+// argInvariants: a callee relies on the invariant of the objects it is given; when this
+// function has changed something such an invariant depends on, the invariant is re-proved
+// for those arguments at the call.
+func (fg *FuncGen) argInvariants(cl *callee, args []Val, pre *State, callTxt string) {
+	if cl.ct != nil && len(cl.ct.NoInv) > 0 {
+		// the callee explicitly does not rely on the invariant of some parameters (initialisers)
+	}
+	for i, a := range args {
+		if a.T == "" || a.Typ == nil {
+			continue
+		}
+		ct, _ := fg.structInvFor(a.Typ)
+		if ct == nil {
+			continue
+		}
+		if cl.ct != nil && i < len(cl.params) && hasProp(cl.ct.NoInv, cl.params[i]) {
+			continue
+		}
+		if _, own := fg.invTouched[a.T]; own {
+			continue // handled by ownObjectsAcrossCall
+		}
+		if !fg.depsChanged(fg.invDeps(ct, a.Typ), fg.lastBoundary(), pre) && !fg.dirty[typeKey(a.Typ.Underlying().(*types.Pointer).Elem())] {
+			continue
+		}
+		fg.oblige("objinv@call", ct.Key+" argument of "+callTxt, implies(fmt.Sprintf("(not (= %s 0))", a.T), fg.invTerm(ct, a.Typ, a.T, pre)), ct.Props, "invariant")
+	}
+}
+
+// clausePkg: names in a clause are resolved in the package of the file it was written in
+// (blocks for the same dependency may be spread over several contract files).
+func (fg *FuncGen) clausePkg(env *SpecEnv, c *Clause) {
+	if c.Pkg != "" {
+		if p := fg.g.pkgByPath(c.Pkg); p != nil {
+			env.pkg = p
+		}
+	}
+}
+
+// implementedBy resolves the `implements` clause of a callee's contract.
+func (g *Gen) implementedBy(fn *ssa.Function, ct *Contract) (*Contract, []string) {
+	parts := strings.Split(ct.Implements, ".")
+	if fn.Pkg == nil {
+		return nil, nil
+	}
+	p := g.importedPkg(fn.Pkg.Pkg, parts[0])
+	if p == nil && parts[0] == fn.Pkg.Pkg.Name() {
+		p = fn.Pkg.Pkg
+	}
+	if p == nil {
+		return nil, nil
+	}
+	var ict *Contract
+	if len(parts) == 2 {
+		ict = g.cs.ByKey["functype "+p.Path()+" "+parts[1]]
+	} else if len(parts) == 3 {
+		ict = g.cs.ByKey["iface "+p.Path()+" "+parts[1]+"."+parts[2]]
+	}
+	if ict == nil {
+		return nil, nil
+	}
+	_, names := g.contractSig(ict)
+	return ict, names
+}
+
+// isOwnField: the component is a scalar field of the invariant's own struct type (so a store
+// to it at reference r affects only the object r).
+func (fg *FuncGen) isOwnField(ct *Contract, ptrT types.Type, comp string) bool {
+	p, ok := ptrT.Underlying().(*types.Pointer)
+	if !ok {
+		return false
+	}
+	u, ok := p.Elem().Underlying().(*types.Struct)
+	if !ok {
+		return false
+	}
+	for i := 0; i < u.NumFields(); i++ {
+		ft := u.Field(i).Type()
+		if isStruct(ft) || isArray(ft) {
+			continue
+		}
+		if fg.fieldComp(p.Elem(), i).Name == comp {
+			return true
+		}
+	}
+	return false
+}
+
+// rootOf maps the reference of an embedded struct / array field to the heap object that
+// contains it (identity on ordinary references); "existed at entry" in frame conditions is
+// judged on the root, so the embedded parts of freshly allocated objects are exempt.
+func (fg *FuncGen) needRootOf() {
+	fg.enc.declFun("rootOf", []string{"Int"}, "Int")
+	fg.enc.usesQuant = true
+	fg.enc.axiom("(forall ((r Int)) (! (=> (>= r 0) (= (rootOf r) r)) :pattern ((rootOf r))))")
 }
